@@ -53,6 +53,7 @@ type Case struct {
 	LayerGz  bool   `json:",omitempty"`
 	Images   int    `json:",omitempty"`
 	Special  string `json:",omitempty"`
+	XGraph   bool   `json:",omitempty"` // graph from imgen.RandomX (inline data, OCI artifact manifests, unknown-typed blob entries)
 }
 
 type Ent struct {
@@ -137,7 +138,9 @@ type nodeInfo struct {
 }
 
 var manMT = map[string]bool{imgen.MTIndex: true, imgen.MTDockerL: true, imgen.MTImage: true, imgen.MTDocker: true,
-	"application/vnd.docker.distribution.manifest.v1+json": true, "application/vnd.docker.distribution.manifest.v1+prettyjws": true}
+	"application/vnd.docker.distribution.manifest.v1+json": true, "application/vnd.docker.distribution.manifest.v1+prettyjws": true,
+	// not in the media-type switches of export and import, but types/manifest parses it: their "try as a manifest" branch takes it
+	imgen.MTArtifact: true}
 var blobMT = map[string]bool{"application/vnd.docker.container.image.v1+json": true, "application/vnd.oci.image.config.v1+json": true,
 	"application/vnd.docker.image.rootfs.diff.tar": true, "application/vnd.docker.image.rootfs.diff.tar.gzip": true, "application/vnd.docker.image.rootfs.diff.tar.zstd": true,
 	"application/vnd.oci.image.layer.v1.tar": true, "application/vnd.oci.image.layer.v1.tar+gzip": true, "application/vnd.oci.image.layer.v1.tar+zstd": true,
@@ -161,11 +164,18 @@ func classify(body []byte) nodeInfo {
 		Manifests []struct{ Digest, MediaType string }
 		Config    *struct{ Digest string }
 		Layers    []struct{ Digest string }
+		Blobs     []struct{ Digest string }
 	}
 	if json.Unmarshal(body, &m) != nil {
 		return nodeInfo{kind: "blob"}
 	}
 	switch m.MediaType {
+	case imgen.MTArtifact: // an image without a config whose layers are its blobs
+		n := nodeInfo{kind: "image", children: []child{{}}}
+		for _, l := range m.Blobs {
+			n.children = append(n.children, child{l.Digest, ""})
+		}
+		return n
 	case imgen.MTIndex, imgen.MTDockerL:
 		n := nodeInfo{kind: "index"}
 		for _, c := range m.Manifests {
@@ -255,10 +265,17 @@ func noForeign(g *imgen.Graph) bool {
 	return true
 }
 
-func genGraph(r *lib.Rand, uniq string) *imgen.Graph {
+// genGraph: no foreign layers (an archive can not hold them); no schema1 roots from the extended generator (ImageExport
+// refuses them: "config digest not available" - an error, not a wrong archive)
+func genGraph(r *lib.Rand, uniq string, x bool) *imgen.Graph {
 	for {
-		g := imgen.Random(r, uniq)
-		if noForeign(g) {
+		var g *imgen.Graph
+		if x {
+			g = imgen.RandomX(r, uniq)
+		} else {
+			g = imgen.Random(r, uniq)
+		}
+		if noForeign(g) && !strings.Contains(g.Root.MT, "manifest.v1+") {
 			return g
 		}
 	}
@@ -556,7 +573,7 @@ func runCaseRaw(c Case, tmp string, res *lib.Result) []string {
 		return runDocker(ctx, c, r, w, res)
 	}
 	uniq := fmt.Sprintf("x%x", c.Seed&0xffff)
-	g := genGraph(r, uniq)
+	g := genGraph(r, uniq, c.XGraph)
 	if c.Special == "unknown-mt-entry" {
 		g = &imgen.Graph{}
 		l1 := g.Blob([]byte(uniq+"-l1"), imgen.MTLayer)
@@ -1150,7 +1167,7 @@ func runDocker(ctx context.Context, c Case, r *lib.Rand, w *world, res *lib.Resu
 }
 
 func genCase(r *lib.Rand) Case {
-	c := Case{Seed: r.U64()}
+	c := Case{Seed: r.U64(), XGraph: r.Chance(30)}
 	switch k := r.Intn(100); {
 	case k < 30:
 		c.Kind = "rt"
@@ -1191,7 +1208,7 @@ func genCase(r *lib.Rand) Case {
 
 func Run(o lib.Opts) {
 	res := lib.NewResult("C09", o.Tier, o.Seed)
-	res.Rule = "one splitmix64 stream: 30% round trips (generated graphs as C03 without foreign layers; source registry or layout, target registry - half of them validating that children exist - or layout; gzip, export-name override, import by tag/digest/name, half-prepopulated targets); 35% re-written archives (entries shuffled / reversed / layout and index last, blobs stored elsewhere behind symlinks or hardlinks in three directory relations, duplicate entries); 10% archives with one needed blob removed (must fail, tag not set); 25% Docker save-format archives built by hand (legacy <id>/layer.tar with symlinks for repeated layers, one-file-per-layer with repeated names, flat blobs/ without index; plain or gzip layers; 1-2 images with selection by name); every exported archive is validated independently and its digest order compared with the Coq export walk; every import into a registry is compared with the Coq import machine; non-trivial = re-written, incomplete or Docker archive, or nested index; distinct by case"
+	res.Rule = "one splitmix64 stream: 30% round trips (generated graphs as C03 without foreign layers, 30% of all graphs from the extended generator: inline data, OCI artifact manifests as root / index entry, unknown-typed blob entries - schema1 roots excepted, which ImageExport refuses; source registry or layout, target registry - half of them validating that children exist - or layout; gzip, export-name override, import by tag/digest/name, half-prepopulated targets); 35% re-written archives (entries shuffled / reversed / layout and index last, blobs stored elsewhere behind symlinks or hardlinks in three directory relations, duplicate entries); 10% archives with one needed blob removed (must fail, tag not set); 25% Docker save-format archives built by hand (legacy <id>/layer.tar with symlinks for repeated layers, one-file-per-layer with repeated names, flat blobs/ without index; plain or gzip layers; 1-2 images with selection by name); every exported archive is validated independently and its digest order compared with the Coq export walk; every import into a registry is compared with the Coq import machine; non-trivial = re-written, incomplete or Docker archive, or nested index; distinct by case"
 	if o.Replay != "" {
 		var f struct{ Case Case }
 		b, err := os.ReadFile(o.Replay)
@@ -1221,6 +1238,10 @@ func Run(o lib.Opts) {
 		{Kind: "perm", Seed: 25, Links: 1, Sel: "tag", Shuffle: 1},
 		{Kind: "rt", Seed: 26, Sel: "tag", Stale: true},
 		{Kind: "rt", Seed: 27, Sel: "tag", Stale: true, TgtDir: true},
+		// fixed: export from a layout wrote an OCI artifact manifest (unknown media type) as a blob, without what it references
+		{Kind: "rt", Seed: 7000, SrcDir: true, Sel: "tag", Validate: true, XGraph: true},
+		{Kind: "rt", Seed: 7003, SrcDir: true, Sel: "tag", Validate: true, XGraph: true},
+		{Kind: "rt", Seed: 7007, SrcDir: true, Sel: "tag", Validate: true, XGraph: true},
 	}
 	n := o.Scale(220, 4000)
 	for i := 0; i < n; i++ {
